@@ -30,11 +30,24 @@ type JVal struct {
 }
 
 type (
-	CBytes  struct{ B []byte; Nil bool; IsStr bool }
+	CBytes struct {
+		B     []byte
+		Nil   bool
+		IsStr bool
+	}
 	CStruct struct{ F map[string]CV }
-	CList   struct{ L []CV; Nil bool }
-	CPtr    struct{ Nil bool; V CV }
-	CIface  struct{ Nil bool; Type string }
+	CList   struct {
+		L   []CV
+		Nil bool
+	}
+	CPtr struct {
+		Nil bool
+		V   CV
+	}
+	CIface struct {
+		Nil  bool
+		Type string
+	}
 	CType   struct{ T types.Type }
 	CNilLit struct{}
 	CUnk    struct{ Why string }
